@@ -16,6 +16,8 @@ func rulesC07(c *Ctx) {
 	c07Race(c)
 	c07IsFailure(c)
 	c07ErrOwner(c)
+	buildersStore(c, "timeout")
+	delegatingBuilders(c, "timeout")
 	// the limit applies afresh to each attempt under a retry: the execution's per-attempt protocol
 	execStateMethods(c, nil)
 	c.Rule("per-attempt")
@@ -312,6 +314,9 @@ func c07ErrOwner(c *Ctx) {
 
 func rulesC09(c *Ctx) {
 	c09Loop(c)
+	buildersStore(c, "hedgepolicy")
+	delegatingBuilders(c, "hedgepolicy")
+	c09DelayBuilder(c)
 	execStateMethods(c, nil)
 	c.Rule("fresh-executor")
 	c01Self(c)
@@ -733,5 +738,35 @@ func c09Attempt(c *Ctx, ev *Evaluator, g *Event, innerFn, maxHedges, resultChan 
 	}
 	if ok {
 		c.Ok(name, pos, fmt.Sprintf("%d paths: innerFn once; counted once; delivered ⇔ (last to finish ∨ matches cancel conditions) ∧ CAS(false,true) won; one non-blocking send carrying its own result and index", len(qs)))
+	}
+}
+
+// c09DelayBuilder: BuilderWithDelay(d) builds a delay function that always returns d; the default is one hedge.
+func c09DelayBuilder(c *Ctx) {
+	c.Rule("delay-builder")
+	fn := c.P.Func("hedgepolicy.BuilderWithDelay")
+	if fn == nil {
+		c.Unresolved("hedgepolicy.BuilderWithDelay", "not found")
+		return
+	}
+	ev := NewEvaluator(c.P, EvalConfig{NoSamePkgInline: true})
+	ok := true
+	ps := ev.Run(fn)
+	for _, p := range ps {
+		b := eventsWhere(p, func(e *Event) bool { return isCall(e, "BuilderWithDelayFunc") })
+		if p.Exit != ExitReturn || len(b) != 1 || b[0].Args[0].Fn == nil || p.Rets[0] != b[0].Res[0] {
+			ok = false
+			c.Fail(c.fn(fn), c.P.FuncPos(fn), "BuilderWithDelay(d) must be BuilderWithDelayFunc(func(…) { return d })", pathTrace(ev, p))
+			continue
+		}
+		for _, q := range ev.CallTerm(p.State, b[0].Args[0], nil) {
+			if q.Exit != ExitReturn || q.Rets[0] != ev.Param(fn, fn.Params[0].Name()) {
+				ok = false
+				c.Fail(c.fn(fn), c.P.FuncPos(fn), "the fixed hedge delay function must return exactly the configured delay", pathTrace(ev, q))
+			}
+		}
+	}
+	if ok && len(ps) > 0 {
+		c.Ok(c.fn(fn), c.P.FuncPos(fn), "constant delay function returning the configured delay")
 	}
 }
